@@ -87,6 +87,12 @@ func init() {
 	// is longer than its spelling), early in a longer string
 	strPool = append(strPool, "\xff\xff\xff\xff\xffabcdefgh", "\x80\x80\x80\x80\x80\x80 and a tail of text", "\xc3\xc3\xc3\xc3\xc3\xc3xxxxxxxxxxxxxxxx", "a\xe2\x80b\xf0\x9fc\xed\xa0\x80defghijkl")
 	strPool = append(strPool, "l\xe2\x80\xa8s", "\xe2\x80\xa9", "a\xe2\x80\xa8b\xe2\x80\xa9c")
+	// characters that Go's own quoting (strconv) would spell differently from JSON: DEL, C1 controls,
+	// soft hyphen, BOM, non-printable characters beyond the BMP (tag characters, private use planes,
+	// noncharacters, the last code point)
+	odd := []string{"\x7f", "del\x7fete", "\xc2\x85", "\xc2\xad", "\xef\xbb\xbf", "\U000E0001tag", "\U000F0000", "\U0010FFFF", "\U0003FFFF", "x\U000E007Fy"}
+	keyPool = append(keyPool, odd...)
+	strPool = append(strPool, odd...)
 }
 
 type genOpts struct {
@@ -776,4 +782,25 @@ func sharedSubtreePair(g genOpts) ([]byte, []byte) {
 		patch = `{"w":` + patch + "}"
 	}
 	return []byte(doc), []byte(patch)
+}
+
+// perturbString: a different string — half of the time of the SAME length (one ASCII byte replaced,
+// white space kept so that two such strings still both hold a space), else one byte longer
+func perturbString(x string) string {
+	if chance(0.5) {
+		b := []byte(x)
+		for tries := 0; tries < 8 && len(b) > 0; tries++ {
+			i := rng.Intn(len(b))
+			c := b[i]
+			if c >= 'a' && c <= 'z' || c >= 'A' && c <= 'Z' || c >= '0' && c <= '9' {
+				if c == 'z' || c == 'Z' || c == '9' {
+					b[i] = c - 1
+				} else {
+					b[i] = c + 1
+				}
+				return string(b)
+			}
+		}
+	}
+	return x + "x"
 }
